@@ -237,6 +237,8 @@ def run(ctx):
             n_model, mism_model, mstats = model_compare(ctx)
         xc = crosscheck_reader(ctx)
         cov["format_reader_crosscheck"] = xc
+        cov["s2"] = {"covered_byte_rule_mismatches": mism_rule, "model_vs_crate_mismatches": len(mism_model),
+                     "model_blocks_compared": n_model}
         if mism_rule or mism_model or xc["differences"]:
             s2_ok = False
             s2_detail = {"covered_byte_rule_mismatches": mism_rule,
